@@ -442,7 +442,7 @@ NMBarrier ==
   (scen.method \in (PlainNM \cup SelectedNM)) =>
     \A i \in DOMAIN h : (h[i].ev = "start" /\ h[i].stage = 2) =>
        /\ Cardinality({j \in 1..(i-1) : h[j].ev = "end" /\ h[j].stage = 1}) = scen.n
-       /\ ~scen.b => \A j \in 1..(i-1) : h[j].ev = "end" => h[j].out # "fail"
+       /\ ~scen.b => \A j \in 1..(i-1) : (h[j].ev = "end" /\ h[j].stage = 1) => h[j].out # "fail"
 NMComplete ==
   (Done /\ scen.method \in (PlainNM \cup SelectedNM) /\ ~plan.reject /\ (scen.b \/ Failed = {})) =>
      Len(Starts) = scen.n + scen.m
